@@ -22,6 +22,8 @@ THEOREMS = [
     "Drand.Store.c18_trimmed_get_exact",
     "Drand.Store.c18_mem_inv", "Drand.Store.c18_mem_cap", "Drand.Store.c18_mem_put_keeps",
     "Drand.Store.c18_mem_get_sound", "Drand.Store.c18_mem_window", "Drand.Store.c18_mem_cursor_sound",
+    "Drand.Store.c18_read_is_snapshot", "Drand.Store.c18_bolt_held_get", "Drand.Store.c18_put_ok_readable",
+    "Drand.Store.c18_put_failed_no_effect", "Drand.Store.c18_saveto_is_content",
 ]
 
 
@@ -61,13 +63,83 @@ def parse_read(tok):
     return (int(f[0]), f[1], f[2])
 
 
+def fmt_read(t):
+    return "none" if t is None else f"{t[0]} {t[1]} {t[2]}"
+
+
 def oracle_seq(backend, ops, outs):
     """Evaluate C18 directly on the implementation's answers for one sequence (ops after a reset)."""
     sp = Spec(backend)
+    mem = sp.cap is not None
+    held = {}        # slot -> the value the read returned (None: the read returned nothing)
+    closed = False   # bolt: Close was called (memdb: Close is a no-op)
     for op, out in zip(ops, outs):
         f = op.split()
-        if out.startswith("err:") or out.startswith("panic") or out == "bad-op" or out == "nil":
+        if f[0] == "cmp":
+            # a value handed out by a read is the caller's: it must still be what the read returned
+            want = held.get(f[1])
+            exp = "empty" if want is None else "same " + fmt_read(want)
+            if out != exp:
+                return (f"the beacon a caller obtained from the store ({want}) no longer is what the read returned after later writes: "
+                        f"cmp answered {out!r}")
+            continue
+        if f[0] == "close":
+            if out != "ok":
+                return f"close answered {out}"
+            closed = not mem
+            continue
+        if f[0] == "cx":
+            if f[1] in ("hold", "cx", "qput", "cmp", "reset", "close"):
+                continue
+            if mem or (backend.startswith("trimmed") and f[1] == "saveto"):
+                f = f[1:]       # the context is not looked at: the op runs
+                op = " ".join(f)
+            else:
+                if out != "cancelled":
+                    return f"{op}: called with a cancelled context, answered {out!r}"
+                continue
+        if closed:
+            if f[0] != "qput" and out != "err:closed":
+                return f"{op}: on a closed store, answered {out!r}"
+            if f[0] == "hold":
+                held[f[1]] = None
+            continue
+        if out.startswith("err:") or out.startswith("panic") or out in ("bad-op", "nil", "hang", "cancelled"):
             return f"{op}: unexpected outcome {out}"
+        if f[0] == "hold":
+            # evaluated as the read it performs; the caller keeps what that read returned
+            slot, f = f[1], f[2:]
+            op = " ".join(f)
+            last_tok = out.split("|")[-1]
+            held[slot] = parse_read(last_tok)
+        if f[0] == "qput":
+            # Put under a context cancelled before / while queued behind another writer / after: whatever it answers,
+            # "ok" means stored and an error means nothing was written
+            res, _, got = out.partition(" get=")
+            r = int(f[2])
+            if res == "ok":
+                sp.put(r, f[3], f[4])
+            elif res != "cancelled":
+                return f"{op}: answered {out!r}"
+            if f[1] == "after" and res != "ok":
+                return f"{op}: the context was live during the whole Put, yet it answered {res}"
+            want = fmt_read(sp.expect(r))
+            if got != want:
+                if res == "ok":
+                    return f"{op}: Put answered ok but Get({r}) then returns {got!r}; the map says {want}"
+                return f"{op}: Put answered {res} but Get({r}) then returns {got!r}; before the call the map said {want}"
+            continue
+        if f[0] == "saveto":
+            if mem:
+                if out != "unsupported":
+                    return f"memdb saveto answered {out!r}"
+                continue
+            keys = sorted(sp.m)
+            recs = [f"{k} {sp.m[k][0]} {sp.m[k][1] if backend == 'bolt' else '-'}" for k in keys]
+            want = f"n={len(keys)} " + ("|".join(recs) if recs else "-")
+            if out != want:
+                return f"the copy written by SaveTo holds {out!r}, the store holds {want!r}"
+            continue
         if f[0] == "put":
             sp.put(int(f[1]), f[2], f[3])
         elif f[0] == "del":
@@ -87,11 +159,23 @@ def oracle_seq(backend, ops, outs):
             res = out.split("|")
             prev_round = None
             mutated = False
+            dead = False
             for t, o in zip(toks, res):
+                if t == "cancel":
+                    dead = not mem
+                    if o != "ok":
+                        return f"cursor session: cancel answered {o!r}"
+                    continue
+                if dead:
+                    if o != "cancelled":
+                        return f"cursor {t} after the session's context was cancelled answered {o!r}"
+                    continue
                 if t.startswith("put:"):
                     a = t.split(":"); sp.put(int(a[1]), a[2], a[3]); mutated = True; continue
                 if t.startswith("del:"):
                     sp.delete(int(t[4:])); mutated = True; continue
+                if o.startswith(("err:", "panic")) or o in ("cancelled", "bad-op", "nil"):
+                    return f"cursor {t} answered {o!r}"
                 rd = parse_read(o)
                 if rd is not None:
                     # read soundness: the label carries its own data
@@ -190,6 +274,7 @@ def gen_sequences(rng, tier, backend):
                         toks.append("next")
                 seq.append("cur " + " ".join(toks))
         seqs.append(seq)
+    seqs += gen_held(rng.fork("held"), tier, backend) + gen_ctx(rng.fork("ctx"), tier, backend)
     # ascending dense runs (the workload the node produces), long enough to wrap the memdb ring
     for L in ((30,) if tier == "quick" else (30, 200)):
         seq = []
@@ -199,6 +284,101 @@ def gen_sequences(rng, tier, backend):
                 seq += ["last", "len", f"get {r}", f"get {max(0, r - 5)}", f"cur seek:{max(0, r - 3)} next next next next"]
         seqs.append(seq)
     return seqs
+
+
+def long_sig(r, n, salt=0):
+    return "".join(f"{(r * 7 + i * 13 + salt) % 256:02x}" for i in range(n))
+
+
+READ_PATHS = ["get {r}", "get {r1}", "last", "cur seek:{r}", "cur seek:{r1}", "cur last", "cur first next", "cur first",
+              "cur seek:{r1} next", "cur last next", "get 0"]
+
+
+def gen_held(rng, tier, backend):
+    """A caller keeps the beacon a read returned while the node goes on writing (PublicRand / HTTP / chain check during
+    catch-up): holds through every read path, then bursts of at least two writes, then `cmp`. The store is a chain of
+    rounds with signatures of the real lengths (48 / 96 bytes), long enough that the bucket has pages of its own."""
+    seqs = []
+    for i in range(6 if tier == "quick" else 120):
+        r2 = rng.fork(f"h{i}")
+        n = r2.choice([48, 96, 48, 96, 2, 17])
+        pre = r2.range(14, 40) if n >= 17 else r2.range(50, 90)
+        if backend.startswith("mem"):
+            pre = min(pre, r2.range(6, 20))
+        seq = [f"put {r} {long_sig(r, n)} {long_sig(r - 1, n) if r else '-'}" for r in range(pre + 1)]
+        head = pre
+        slot = 0
+        for _ in range(r2.range(2, 4)):
+            live = []
+            for _ in range(r2.range(2, 6)):
+                t = r2.choice(READ_PATHS).replace("{r1}", str(max(0, head - r2.range(1, 3)))).replace("{r}", str(head))
+                seq.append(f"hold {slot} {t}")
+                live.append(slot)
+                slot += 1
+            for _ in range(r2.range(1, 3)):
+                for _ in range(r2.range(2, 5)):      # a burst: the freed page has to be handed out again
+                    k = r2.below(10)
+                    if k < 7:
+                        head += 1
+                        seq.append(f"put {head} {long_sig(head, n)} {long_sig(head - 1, n)}")
+                    elif k < 8:
+                        seq.append(f"del {r2.range(0, head)}")
+                    else:
+                        x = r2.range(0, head)
+                        seq.append(f"put {x} {long_sig(x, n, 1)} {long_sig(x - 1, n, 1) if x else '-'}")
+                seq += [f"cmp {k}" for k in live]
+        if i % 3 == 0:
+            seq.append("saveto")
+        if i % 2 == 0:      # the values outlive the store
+            seq += ["close"] + [f"cmp {k}" for k in range(max(0, slot - 4), slot)] + ["get 1"]
+        seqs.append(seq)
+    return seqs
+
+
+def gen_ctx(rng, tier, backend):
+    """cancelled contexts (before the call, while the Put is queued behind another writer, after), Close, SaveTo"""
+    seqs = []
+    for i in range(8 if tier == "quick" else 150):
+        r2 = rng.fork(f"c{i}")
+        seq = []
+        head = -1
+        for _ in range(r2.range(2, 8)):
+            head += 1
+            seq.append(f"put {head} {long_sig(head, 4)} {long_sig(head - 1, 4) if head else '-'}")
+        for _ in range(r2.range(6, 16)):
+            k = r2.below(100)
+            if k < 40:
+                when = r2.choice(["before", "during", "during", "after"])
+                r = r2.choice([head + 1, head + 1, head, max(0, head - 1), head + 3])
+                seq.append(f"qput {when} {r} {long_sig(r, 4, 2)} {long_sig(r - 1, 4) if r else '-'}")
+                seq.append(f"get {r}")
+                head = max(head, r)
+            elif k < 65:
+                op = r2.choice([f"put {head + 1} aa bb", f"get {max(0, head)}", "last", "len", f"del {max(0, head)}",
+                                "cur first next", f"cur seek:{max(0, head - 1)} next", "saveto"])
+                seq += ["cx " + op, "len", "last"]
+            elif k < 75:
+                seq.append("saveto")
+            elif k < 90:
+                head += 1
+                seq.append(f"put {head} {long_sig(head, 4)} {long_sig(head - 1, 4)}")
+            else:
+                seq += ["last", f"get {r2.range(0, head + 1)}", "cur first next next", "cur first next cancel next last seek:1", "cur cancel first"]
+        if i % 2 == 0:
+            seq += ["close", "get 0", "last", "len", f"put {head + 1} aa bb", "del 0", "cur first", "saveto", f"hold 0 get 0", "cmp 0",
+                    "cx get 0", "cx saveto", "close"]
+        seqs.append(seq)
+    return seqs
+
+
+def model_lines(lines, impl):
+    """the model takes the implementation's answer to a Put under a cancelled context as the scheduler's choice"""
+    out = []
+    for l, o in zip(lines, impl):
+        if l.startswith("qput "):
+            l = l + " " + (o.split() or ["?"])[0]
+        out.append(l)
+    return out + lines[len(impl):]
 
 
 def explore(ctx, res):
@@ -220,11 +400,21 @@ def explore(ctx, res):
         lines = []
         for s in seqs:
             lines += s + ["reset"]
+        rc, impl, err = core.run_lines(os.path.join(core.BUILD, "verifh"), ["store", backend], lines, env=dict(os.environ, GOMEMLIMIT="6GiB"))
+        if rc != 0 or len(impl) != len(lines):
+            # the harness died (e.g. a read of unmapped memory that could not be turned into a panic): find the sequence
+            for s in seqs:
+                rc1, o1, e1 = core.run_lines(os.path.join(core.BUILD, "verifh"), ["store", backend], s)
+                if rc1 != 0 or len(o1) != len(s):
+                    res.add_violation({"engine": "store", "backend": backend, "kind": "impl-violates", "ops": s, "observed": o1,
+                                       "oracle": f"the implementation crashed on this sequence (exit {rc1}): {e1[-400:]}"})
+                    return finish(res, total, nontriv, dist, samples, validated)
+            raise core.Broken("harness:store", f"exit {rc}: {err[-1500:]}")
+        model = None
         if ctx["model_ok"]:
-            impl, model = core.run_both("store", [backend], lines)
-        else:
-            rc, impl, err = core.run_lines(os.path.join(core.BUILD, "verifh"), ["store", backend], lines)
-            model = None
+            rc2, model, e2 = core.run_lines(os.path.join(core.LEAN, ".lake", "build", "bin", "vdriver"), ["store", backend], model_lines(lines, impl))
+            if rc2 != 0:
+                raise core.Broken("model:store", f"exit {rc2}: {e2[-1500:]}")
         total += len(lines)
         # split back per sequence
         i = 0
@@ -235,11 +425,13 @@ def explore(ctx, res):
             for op in s:
                 k = op.split()[0]
                 dist[k] = dist.get(k, 0) + 1
-            if any(o not in ("ok", "none", "0") for o in outs):
+            if any(o not in ("ok", "none", "0", "empty", "cancelled", "err:closed", "unsupported") for o in outs):
                 nontriv.add((backend, tuple(s)))
             if why:
+                small = shrink(backend, s, ctx)
+                rc_, souts, _ = core.run_lines(os.path.join(core.BUILD, "verifh"), ["store", backend], small)
                 res.add_violation({"engine": "store", "backend": backend, "kind": "impl-violates",
-                                   "ops": shrink(backend, s, ctx), "oracle": why, "observed": outs})
+                                   "ops": small, "oracle": oracle_seq(backend, small, souts) or why, "observed": souts})
                 res.cov.update(evaluations=total)
                 return finish(res, total, nontriv, dist, samples, validated)
             if model is not None and not diverged:
@@ -279,13 +471,14 @@ def shrink(backend, seq, ctx):
         rc, o, e = core.run_lines(h, ["store", backend], s)
         return rc == 0 and oracle_seq(backend, s, o) is not None
     cur = list(seq)
-    changed = True
-    while changed and len(cur) > 1:
-        changed = False
-        for i in range(len(cur)):
-            cand = cur[:i] + cur[i + 1:]
+    n = max(1, len(cur) // 2)
+    while n >= 1:
+        i = 0
+        while i < len(cur):
+            cand = cur[:i] + cur[i + n:]
             if cand and fails(cand):
                 cur = cand
-                changed = True
-                break
+            else:
+                i += n
+        n //= 2
     return cur
